@@ -20,7 +20,7 @@ import threading
 from pathlib import Path
 
 from . import asm
-from .common import ToolError, run_wild
+from .common import ToolError, run_wild, sh
 from .elf import Elf
 
 BASE = {"preinit": ".preinit_array", "init": ".init_array", "fini": ".fini_array",
@@ -126,6 +126,16 @@ def sources(scn, align=3):
     return out
 
 
+def _tool(cmd, what):
+    """as / ar / ld: helper tools, retried on a timeout (a heavily loaded machine is not a finding)."""
+    r = None
+    for timeout in (60, 180, 400):
+        r = sh(cmd, timeout=timeout)
+        if not r.timed_out:
+            return r
+    raise ToolError(f"{what} timed out repeatedly: {' '.join(map(str, cmd))}")
+
+
 _cache_lock = threading.Lock()
 _key_locks = {}
 
@@ -141,7 +151,9 @@ def _assemble_cached(name, text, d, cache):
         if not obj.exists():
             tmp = str(Path(cache) / f".{name}-{key}.{os.getpid()}")
             Path(tmp + ".s").write_text(text)
-            asm.assemble(tmp + ".s", tmp + ".o")
+            r = _tool(["as", "--64", "-o", tmp + ".o", tmp + ".s"], "as")
+            if r.rc != 0:
+                raise ToolError(f"as failed: {r.err[-1000:]}")
             os.replace(tmp + ".s", obj.with_suffix(".s"))
             os.replace(tmp + ".o", obj)
     return obj
@@ -159,7 +171,12 @@ def emit(scn, d, align=3, cache=None):
     inputs = [main_o]
     lib = None
     if members:
-        lib = asm.archive(d / "lib.a", [paths[o] for o in members])
+        lib = d / "lib.a"
+        if lib.exists():
+            lib.unlink()
+        r = _tool(["ar", "rc", lib] + [str(paths[o]) for o in members], "ar")
+        if r.rc != 0:
+            raise ToolError(f"ar failed: {r.err[-1000:]}")
     for o, ob in enumerate(objs, 1):
         if ob.get("member"):
             if lib is not None and o == members[0]:
@@ -198,7 +215,7 @@ def read_arrays(path):
     return out, bounds, leftovers
 
 
-def execute_bytes(path, scn, timeout=10):
+def execute_bytes(path, scn, timeout=60):
     """Run the linked program; ({array: [function names in EXECUTION order]}, None) or (None, why)."""
     ids = {v: k for k, v in func_ids(scn).items()}
     try:
@@ -222,8 +239,13 @@ def expected_names(scn):
 
 
 def link_gnu(inputs, out, extra=()):
-    return asm.gnu_ld([*map(str, inputs), "-o", str(out), *extra], timeout=60)
+    return _tool(["ld", *map(str, inputs), "-o", str(out), *extra], "GNU ld")
 
 
 def link_wild(inputs, out, extra=(), env=None):
-    return run_wild([*map(str, inputs), "-o", str(out), *extra], env=env, timeout=60)
+    """wild under a hard timeout; a timeout is retried once with a much longer one so that only a
+    reproducible hang is reported."""
+    r = run_wild([*map(str, inputs), "-o", str(out), *extra], env=env, timeout=60)
+    if r.timed_out:
+        r = run_wild([*map(str, inputs), "-o", str(out), *extra], env=env, timeout=400)
+    return r
